@@ -14,14 +14,20 @@ import (
 	"strings"
 )
 
-// instrument builds the scratch copy used by C13 (DESIGN.md §3.4): /repo's working tree is copied
-// to a directory outside /repo and /verif, and in the packages mail (root) and smtp every call of
-// Lock/Unlock/RLock/RUnlock is rewritten into simhook.Lock(&m) etc. The hook IS the rewritten
-// call: if a change to go-mail removes a lock, the hook disappears with it, so the instrumentation
-// can never supply mutual exclusion that the code lacks. Nothing is written to /repo.
+// instrument builds the scratch copy used by C13 (DESIGN.md §3.4) and by the checks that reach
+// go-mail's default dialer (C07, C17, C19; DESIGN.md §8.2 "default dialer seam"): /repo's working
+// tree is copied to a directory outside /repo and /verif. With locks=true every call of
+// Lock/Unlock/RLock/RUnlock in the packages mail (root) and smtp is rewritten into
+// simhook.Lock(&m) etc. The hook IS the rewritten call: if a change to go-mail removes a lock, the
+// hook disappears with it, so the instrumentation can never supply mutual exclusion that the code
+// lacks. In every scratch copy the type names net.Dialer and tls.Dialer of the root package are
+// rewritten into simhook.NetDialer / simhook.TLSDialer, whose DialContext asks the simulation for
+// the connection: whatever go-mail does with its default dialers (which one it builds, when, for
+// which address, what it does with the connection) is go-mail's code; only the socket is simulated.
+// Nothing is written to /repo.
 //
 // It returns the scratch directory and an alternative go.mod (replace → scratch) for -modfile.
-func instrument(simDir string) (scratch, modfile string, err error) {
+func instrument(simDir string, locks bool) (scratch, modfile string, err error) {
 	scratch, err = os.MkdirTemp("", "gomail-instr-")
 	if err != nil {
 		return "", "", err
@@ -46,7 +52,7 @@ func instrument(simDir string) (scratch, modfile string, err error) {
 	if err != nil {
 		return scratch, "", err
 	}
-	total := 0
+	total, dialers := 0, 0
 	for _, dir := range []string{".", "smtp"} {
 		ents, err := os.ReadDir(filepath.Join(scratch, dir))
 		if err != nil {
@@ -56,11 +62,20 @@ func instrument(simDir string) (scratch, modfile string, err error) {
 			if e.IsDir() || !strings.HasSuffix(e.Name(), ".go") || strings.HasSuffix(e.Name(), "_test.go") {
 				continue
 			}
-			n, err := rewriteLocks(filepath.Join(scratch, dir, e.Name()))
-			if err != nil {
-				return scratch, "", fmt.Errorf("%s: %w", e.Name(), err)
+			if locks {
+				n, err := rewriteLocks(filepath.Join(scratch, dir, e.Name()))
+				if err != nil {
+					return scratch, "", fmt.Errorf("%s: %w", e.Name(), err)
+				}
+				total += n
 			}
-			total += n
+			if dir == "." {
+				n, err := rewriteDialers(filepath.Join(scratch, dir, e.Name()))
+				if err != nil {
+					return scratch, "", fmt.Errorf("%s: %w", e.Name(), err)
+				}
+				dialers += n
+			}
 		}
 	}
 	if err := os.MkdirAll(filepath.Join(scratch, "simhook"), 0o755); err != nil {
@@ -69,7 +84,7 @@ func instrument(simDir string) (scratch, modfile string, err error) {
 	if err := os.WriteFile(filepath.Join(scratch, "simhook", "simhook.go"), []byte(simhookSrc), 0o644); err != nil {
 		return scratch, "", err
 	}
-	fmt.Fprintf(os.Stderr, "instrumented scratch copy: %d lock calls rewritten\n", total)
+	fmt.Fprintf(os.Stderr, "instrumented scratch copy: %d lock calls, %d dialer type names rewritten\n", total, dialers)
 	modfile, err = altModfile(simDir, scratch)
 	return scratch, modfile, err
 }
@@ -166,12 +181,205 @@ func rewriteLocks(path string) (int, error) {
 	return n, os.WriteFile(path, buf.Bytes(), 0o644)
 }
 
+// rewriteDialers rewrites the type names net.Dialer → simhook.NetDialer and tls.Dialer →
+// simhook.TLSDialer in one file (composite literals, declarations, parameters alike) and returns
+// the number of rewritten names. The imports net and crypto/tls stay referenced through blank
+// declarations, so a file that used them for nothing else still compiles.
+func rewriteDialers(path string) (int, error) {
+	fset := token.NewFileSet()
+	f, err := parser.ParseFile(fset, path, nil, parser.ParseComments)
+	if err != nil {
+		return 0, err
+	}
+	// local names of the two packages in this file
+	netName, tlsName := "", ""
+	for _, im := range f.Imports {
+		switch im.Path.Value {
+		case `"net"`:
+			netName = "net"
+			if im.Name != nil {
+				netName = im.Name.Name
+			}
+		case `"crypto/tls"`:
+			tlsName = "tls"
+			if im.Name != nil {
+				tlsName = im.Name.Name
+			}
+		}
+	}
+	n := 0
+	usedNet, usedTLS := false, false
+	ast.Inspect(f, func(node ast.Node) bool {
+		sel, ok := node.(*ast.SelectorExpr)
+		if !ok || sel.Sel.Name != "Dialer" {
+			return true
+		}
+		x, ok := sel.X.(*ast.Ident)
+		if !ok || x.Obj != nil {
+			return true
+		}
+		switch {
+		case netName != "" && x.Name == netName:
+			x.Name, sel.Sel.Name = "simhook", "NetDialer"
+			usedNet = true
+			n++
+		case tlsName != "" && x.Name == tlsName:
+			x.Name, sel.Sel.Name = "simhook", "TLSDialer"
+			usedTLS = true
+			n++
+		}
+		return true
+	})
+	if n == 0 {
+		return 0, nil
+	}
+	hasSimhook := false
+	for _, im := range f.Imports {
+		if im.Path.Value == `"github.com/wneessen/go-mail/simhook"` {
+			hasSimhook = true
+		}
+	}
+	if !hasSimhook {
+		imp := &ast.ImportSpec{Path: &ast.BasicLit{Kind: token.STRING, Value: `"github.com/wneessen/go-mail/simhook"`}}
+		added := false
+		for _, d := range f.Decls {
+			if gd, ok := d.(*ast.GenDecl); ok && gd.Tok == token.IMPORT {
+				gd.Specs = append(gd.Specs, imp)
+				if !gd.Lparen.IsValid() {
+					gd.Lparen = gd.Pos()
+					gd.Rparen = gd.End()
+				}
+				added = true
+				break
+			}
+		}
+		if !added {
+			f.Decls = append([]ast.Decl{&ast.GenDecl{Tok: token.IMPORT, Specs: []ast.Spec{imp}}}, f.Decls...)
+		}
+		f.Imports = append(f.Imports, imp)
+	}
+	var buf bytes.Buffer
+	if err := format.Node(&buf, fset, f); err != nil {
+		return 0, err
+	}
+	if usedNet {
+		fmt.Fprintf(&buf, "\nvar _ %s.Addr // keeps the import referenced after the dialer rewrite\n", netName)
+	}
+	if usedTLS {
+		fmt.Fprintf(&buf, "\nvar _ %s.ConnectionState // keeps the import referenced after the dialer rewrite\n", tlsName)
+	}
+	return n, os.WriteFile(path, buf.Bytes(), 0o644)
+}
+
 const simhookSrc = `// Package simhook exists only in the instrumented scratch copy built for the concurrency
 // check. Every lock operation of the packages mail and smtp goes through it, which makes lock
 // hand-off a scheduling decision of the simulation kernel.
 package simhook
 
-import "unsafe"
+import (
+	"context"
+	"crypto/tls"
+	"errors"
+	"net"
+	"strings"
+	"syscall"
+	"time"
+	"unsafe"
+)
+
+// Dial is the simulated network: every connection go-mail's default dialers would open through a
+// socket is asked for here. With no simulation attached a dial fails.
+var Dial func(ctx context.Context, network, address string) (net.Conn, error)
+
+// NetDialer stands in for net.Dialer (same fields, so composite literals keep compiling).
+type NetDialer struct {
+	Timeout         time.Duration
+	Deadline        time.Time
+	LocalAddr       net.Addr
+	DualStack       bool
+	FallbackDelay   time.Duration
+	KeepAlive       time.Duration
+	KeepAliveConfig net.KeepAliveConfig
+	Resolver        *net.Resolver
+	Cancel          <-chan struct{}
+	Control         func(network, address string, c syscall.RawConn) error
+	ControlContext  func(ctx context.Context, network, address string, c syscall.RawConn) error
+}
+
+func (d *NetDialer) bound(ctx context.Context) (context.Context, context.CancelFunc) {
+	cancel := func() {}
+	if d.Timeout != 0 {
+		ctx, cancel = context.WithTimeout(ctx, d.Timeout)
+	}
+	if !d.Deadline.IsZero() {
+		c1 := cancel
+		var c2 context.CancelFunc
+		ctx, c2 = context.WithDeadline(ctx, d.Deadline)
+		cancel = func() { c2(); c1() }
+	}
+	return ctx, cancel
+}
+
+// DialContext asks the simulation for the connection.
+func (d *NetDialer) DialContext(ctx context.Context, network, address string) (net.Conn, error) {
+	f := Dial
+	if f == nil {
+		return nil, &net.OpError{Op: "dial", Net: network, Err: errors.New("simhook: no simulated network attached")}
+	}
+	ctx, cancel := d.bound(ctx)
+	defer cancel()
+	return f(ctx, network, address)
+}
+
+// Dial is net.Dialer.Dial.
+func (d *NetDialer) Dial(network, address string) (net.Conn, error) {
+	return d.DialContext(context.Background(), network, address)
+}
+
+// TLSDialer stands in for tls.Dialer. DialContext follows crypto/tls.(*Dialer).DialContext step
+// by step (dial, server name from the address when the config has none, tls.Client,
+// HandshakeContext, close the raw connection when the handshake fails); crypto/tls itself is real.
+type TLSDialer struct {
+	NetDialer *NetDialer
+	Config    *tls.Config
+}
+
+func (d *TLSDialer) Dial(network, addr string) (net.Conn, error) {
+	return d.DialContext(context.Background(), network, addr)
+}
+
+func (d *TLSDialer) DialContext(ctx context.Context, network, addr string) (net.Conn, error) {
+	nd := d.NetDialer
+	if nd == nil {
+		nd = &NetDialer{}
+	}
+	ctx, cancel := nd.bound(ctx)
+	defer cancel()
+	rawConn, err := nd.DialContext(ctx, network, addr)
+	if err != nil {
+		return nil, err
+	}
+	colonPos := strings.LastIndex(addr, ":")
+	if colonPos == -1 {
+		colonPos = len(addr)
+	}
+	hostname := addr[:colonPos]
+	config := d.Config
+	if config == nil {
+		config = &tls.Config{}
+	}
+	if config.ServerName == "" {
+		c := config.Clone()
+		c.ServerName = hostname
+		config = c
+	}
+	conn := tls.Client(rawConn, config)
+	if err := conn.HandshakeContext(ctx); err != nil {
+		_ = rawConn.Close()
+		return nil, err
+	}
+	return conn, nil
+}
 
 type locker interface {
 	Lock()
